@@ -12,6 +12,7 @@ from concurrent.futures import ProcessPoolExecutor, wait, FIRST_COMPLETED
 
 VERIF = os.path.dirname(os.path.dirname(os.path.abspath(__file__)))
 REPO = os.environ.get("RPYLIB_REPO", "/repo")
+OUT = os.environ.get("VERIF_OUT", VERIF)  # evidence/ and replays/ go here (the seeded-change runner points it at a scratch dir)
 
 EXIT_OK, EXIT_VIOLATION, EXIT_INCONCLUSIVE = 0, 1, 2
 
@@ -77,7 +78,7 @@ def _worker_task(args):
             out["records"].append({"id": oid, "verdict": "concrete_ok" if ok else ("concrete_fail" if ok is False else "error"),
                                    "trivial": False, "info": {"detail": detail}, "params": {}, "trace": []})
     else:
-        out = explorer.explore_batch(h.fn, h.params, prefixes, h.batch, h.timeout_ms, seed, _KNOWN, deadline)
+        out = explorer.explore_batch(h.fn, h.params, prefixes, h.batch, h.timeout_ms, seed, _KNOWN, deadline, harness_ref=(h.fn.__module__, h.name))
     out["hidx"] = hidx
     out["functions"] = sorted(_COVER - before) if _COVER is not None else []
     out["all_functions"] = sorted(_COVER) if _COVER is not None else []
@@ -221,7 +222,7 @@ def run_check(pid, tier, harnesses, expect=(), attempted=(), assumptions=(), bou
                    "model": r.get("model"), "scenario": r.get("scenario"), "replay_fn": r.get("replay_fn"),
                    "detail": r.get("replay_detail"), "regions_hit": r.get("regions_hit")}
         hsh = hashlib.sha1(json.dumps(payload, sort_keys=True, default=str).encode()).hexdigest()[:10]
-        d = os.path.join(VERIF, "replays", pid)
+        d = os.path.join(OUT, "replays", pid)
         os.makedirs(d, exist_ok=True)
         path = os.path.join(d, f"{r['id']}-{hsh}.json")
         with open(path, "w") as fh:
@@ -280,8 +281,8 @@ def run_check(pid, tier, harnesses, expect=(), attempted=(), assumptions=(), bou
         "wall_s": round(wall, 2),
         "violations": len(seen),
     }
-    os.makedirs(os.path.join(VERIF, "evidence"), exist_ok=True)
-    with open(os.path.join(VERIF, "evidence", f"{pid}.json"), "w") as fh:
+    os.makedirs(os.path.join(OUT, "evidence"), exist_ok=True)
+    with open(os.path.join(OUT, "evidence", f"{pid}.json"), "w") as fh:
         json.dump(evidence, fh, indent=1, default=str)
 
     for l in lines:
